@@ -3,7 +3,7 @@
    truncated (at most 20 nodes). Node 0 is the first node (no bootstrap nodes). `join` starts a node and
    runs its bootstrap lookup; `responds` = alive and in server mode. *)
 From Coq Require Import List Arith Bool.
-From MLV Require Import model.NetModel proofs.NetProofs.
+From MLV Require Import model.NetModel proofs.NetProofs proofs.NetPaths.
 Import ListNotations.
 
 (* a node given at least one live server that is, or knows, the first node: ends its bootstrap knowing the
@@ -65,6 +65,24 @@ Theorem C13_lookup_queries_every_server : forall nt j find s,
   mem s (responders nt j find None) = true /\ mem s (n_main (get (lookup nt j find None) j)) = true.
 Proof. exact lookup_queries_every_server. Qed.
 
+(* the general form of "discoverable": `reaches nt a b` = a chain of responding nodes, each listing the next in its
+   main table, leads from a to b; `strongly_connected nt` = every responding node reaches every other one. In a
+   strongly connected network a lookup started on any node that knows one responding node queries every server,
+   whatever the shape of the graph and however long its chains (no first node needed) *)
+Theorem C13_strongly_connected_lookup_queries_every_server : forall nt j find d s,
+  strongly_connected nt -> j < length nt -> mem d (n_main (get nt j)) = true -> responds nt d = true ->
+  responds nt s = true -> s <> j ->
+  mem s (responders nt j find None) = true /\ mem s (n_main (get (lookup nt j find None) j)) = true.
+Proof. exact connected_lookup_queries_all. Qed.
+
+(* and the networks of the history theorem are strongly connected: after every admissible history in which every
+   node but the first was given bootstrap nodes *)
+Theorem C13_every_history_strongly_connected : forall evs,
+  hist_ok (join [] true []) evs ->
+  let nt := fold_left nstep evs (join [] true []) in
+  (forall a, 0 < a < length nt -> n_boots (get nt a) <> []) -> strongly_connected nt.
+Proof. intros evs H nt Hb. apply hub_strongly_connected; [exact (hub_history evs _ hub_start H)|exact Hb]. Qed.
+
 (* with an unreachable bootstrap list the node reports not bootstrapped (termination is C06's matter) *)
 Theorem C13_dead_bootstrap_reports_failure : forall nt server boots,
   boots <> [] -> (forall x, In x boots -> x < length nt /\ responds nt x = false) ->
@@ -85,4 +103,6 @@ Print Assumptions C13_tables_only_grow.
 Print Assumptions C13_connected_through_first.
 Print Assumptions C13_lookup_queries_every_server.
 Print Assumptions C13_dead_bootstrap_reports_failure.
+Print Assumptions C13_strongly_connected_lookup_queries_every_server.
+Print Assumptions C13_every_history_strongly_connected.
 Print Assumptions C13_nonvacuous.
